@@ -1,8 +1,9 @@
 (* C25 -- Text string literals encode arbitrary bytes losslessly.
    Statements only; each closed by [exact] of a lemma proved in Text/*P.v. *)
-From Coq Require Import List NArith ZArith.
+From Coq Require Import List NArith ZArith Bool.
 From PB Require Import Base.PBytes Base.Utf8Model Wire.WireModel Text.TextStrModel Text.TextStrP
-  Wire.WireGrammar Text.TextUnknownModel Text.TextUnknownP Text.TextUnknownWireP.
+  Wire.WireGrammar Text.TextUnknownModel Text.TextUnknownP Text.TextUnknownWireP
+  Text.TextNumModel Text.TextNumP.
 Import ListNotations.
 Open Scope N_scope.
 
@@ -56,6 +57,30 @@ Theorem C25_marshal_unknown_total_parsed :
 Proof. exact marshal_unknown_total_parsed. Qed.
 Print Assumptions C25_marshal_unknown_total_parsed.
 
+(* ---- number tokens (the lexical fact C24 needs; the "num" op of this family
+   checks the token model against text.Decoder) ----
+   every string in the output grammar of strconv.FormatFloat(x, 'g', -1, bits)
+   for finite x -- sign? intpart (. digits)? (e sign digits)? -- followed by a
+   delimiter or the end of input is lexed by parseNumber as ONE number token:
+   its size and string are the whole rendering, kind float unless it has neither
+   fraction nor exponent, and ParseFloat's syntax accepts it *)
+Theorem C25_float_text_accepted :
+  forall neg ip fr ex rest,
+  int_part ip -> frac_part fr -> exp_part ex -> at_delim rest = true ->
+  let s := float_text neg ip fr ex in
+  exists num, parse_number (s ++ rest) = Some num /\
+              nsize num = length s /\ nneg num = neg /\ nsep num = O /\
+              nkind num = (if TextNumP.is_nil fr && TextNumP.is_nil ex then 0 else 4) /\
+              number_string num (s ++ rest) = s.
+Proof. exact float_text_accepted. Qed.
+Print Assumptions C25_float_text_accepted.
+
+Theorem C25_float_text_syntax_ok :
+  forall neg ip fr ex, int_part ip -> frac_part fr -> exp_part ex ->
+  float_syntax_ok (float_text neg ip fr ex) = true.
+Proof. exact float_text_syntax_ok. Qed.
+Print Assumptions C25_float_text_syntax_ok.
+
 (* non-vacuity / sanity: the model computes the expected literals *)
 Example C25_ex_escape :
   append_string true [x01; x22; xc3; xa9; xff; x27] =
@@ -77,3 +102,13 @@ Proof. vm_compute. reflexivity. Qed.
 Example C25_ex_unknown_panics_on_garbage :
   marshal_unknown {| ec_indent := []; ec_extra := false; ec_ascii := false |} [x0c] = None.
 Proof. vm_compute. reflexivity. Qed.
+(* the float grammar is inhabited: -1.5e+07 *)
+Example C25_ex_float_grammar :
+  int_part [x31] /\ frac_part [x2e; x35] /\ exp_part [x65; x2b; x30; x37] /\
+  float_text true [x31] [x2e; x35] [x65; x2b; x30; x37] = [x2d; x31; x2e; x35; x65; x2b; x30; x37].
+Proof.
+  split; [|split; [|split; [|reflexivity]]].
+  - apply ip_nz; [reflexivity|constructor].
+  - apply fp_some; [discriminate|repeat constructor].
+  - apply ep_some; [left; reflexivity|discriminate|repeat constructor].
+Qed.
